@@ -520,3 +520,31 @@ pub fn first_diff(a: &str, b: &str) -> String {
     }
     "<no line differs>".into()
 }
+
+/// Run a future of the code under test on the ORIGINAL side of a round trip: a panic there is outside these
+/// properties (the plan never gets to the round trip) and becomes `None`.
+pub async fn no_panic<T>(f: impl std::future::Future<Output = T>) -> Option<T> {
+    use futures::FutureExt;
+    std::panic::AssertUnwindSafe(f).catch_unwind().await.ok()
+}
+
+/// Does the plan hold a Union whose stored schema differs from the one `Union::try_new_with_loose_types`
+/// derives from its inputs (what the decoder does)? The optimizer keeps the original schema when it drops
+/// or rewrites branches.
+pub fn union_schema_drift(plan: &LogicalPlan) -> bool {
+    let mut drift = false;
+    let _ = plan.apply_with_subqueries(|n| {
+        if let LogicalPlan::Union(u) = n {
+            match datafusion::logical_expr::Union::try_new_with_loose_types(u.inputs.clone()) {
+                Ok(d) => {
+                    if d.schema != u.schema {
+                        drift = true;
+                    }
+                }
+                Err(_) => drift = true,
+            }
+        }
+        Ok(TreeNodeRecursion::Continue)
+    });
+    drift
+}
